@@ -58,6 +58,9 @@ LIFE = set(SEQ)
 OTHER_TAPS = {"player_add_request", "player_will_add", "player_adding", "player_added", "balls_in_play", "tilt_clear",
               "ball_drain", "tilt", "slam_tilt", "game_start"}
 ANCHORS = SEQ + ["player_adding", "player_added", "player_add_request"]
+# anchors are drawn with extra weight on the ball events (most requests refer to the ball in progress)
+ANCHOR_PICK = ANCHORS + ["ball_will_start", "ball_starting", "ball_started", "ball_started", "ball_will_end", "ball_ending",
+                         "ball_ended", "player_turn_started", "player_turn_ended", "player_turn_starting", "game_ended"]
 TURN_PHASES = {"player_turn_will_start", "player_turn_starting", "player_turn_started", "ball_will_start",
                "ball_starting", "ball_started", "ball_will_end", "ball_ending", "ball_ended", "player_turn_will_end",
                "player_turn_ending"}
@@ -91,7 +94,8 @@ def plan(ch, tier):
            "prio": ch.pick("prio", [10000, -10000]),
            "auto_drain": None, "world_delays": [0.0, 0.3, 1.2]}
     if ch.flag("auto_drain", 0.55):
-        cfg["auto_drain"] = [ch.pick("ad_delay", [0.0, 0.05, 0.2, 0.2, 0.7, 1.5]) for _ in range(4)]
+        # None = the drain is posted inside the ball_started handler itself
+        cfg["auto_drain"] = [ch.pick("ad_delay", [0.0, 0.05, 0.2, 0.2, 0.7, 1.5, None]) for _ in range(4)]
         cfg["auto_k"] = ch.pick("ad_k", ["one", "all", "known"])
     # swarm over request kinds: a run uses a random subset (drains and starts always)
     prof = [("drain", 6.0), ("btn", 3.0), ("add_ev", 2.0 if ch.flag("p.add_ev", 0.7) else 0),
@@ -128,7 +132,7 @@ def plan(ch, tier):
                 delay = None if frac is None else h["dur"] * frac
                 ops.append({"t": "anch", "ev": ev, "n": h["n"], "delay": delay, "do": _gen_action(ch, prof), "in_hold": True})
     for _ in range(ch.choice("nanch", 9)):
-        ops.append({"t": "anch", "ev": ch.pick("anch_ev", ANCHORS), "n": ch.pick("anch_n", [0, 0, 1, 1, 2, 3, 4, 6]),
+        ops.append({"t": "anch", "ev": ch.pick("anch_ev", ANCHOR_PICK), "n": ch.pick("anch_n", [0, 0, 1, 1, 2, 3, 4, 6]),
                     "delay": ch.pick("anch_delay", [None, None, 0.0, 0.001, 0.1, 1.0]), "do": _gen_action(ch, prof)})
     return {"knobs": knobs, "cfg": cfg, "ops": ops}
 
@@ -309,8 +313,9 @@ class Oracle:
         self.add_req_taps0 = self.add_req_taps
         # Documented gate (request_player_add): during ball 1, below max_players, game not ending => the request
         # is forwarded as player_add_request.  Only the unambiguous window is required: a ball-1 turn in progress.
+        # R-add-in-flight: while another player's add is still in progress the request may be refused or served.
         self.add_must = (self.active and self.round == 1 and not self.end_game_req and not self.slam_req
-                         and self.roster_hi < self.maxp
+                         and self.roster_hi < self.maxp and self.roster_hi == len(self.added) and self.pending_adds == 0
                          and self.phase in ("player_turn_started", "ball_will_start", "ball_starting", "ball_started",
                                             "ball_will_end", "ball_ending", "ball_ended"))
         self.add_must_not = self.active and self.round >= 2 and self.phase in (
@@ -826,7 +831,13 @@ def execute(ctx, plan):
                     ctx.log("auto_drain", k, t=loop.time())
                     orc.check_obligations(loop.time())
                     post_drain(k)
-            sim.after(d, go)
+            if d is None:
+                if orc.in_ball and not world.get("final") and not world["settling"]:
+                    ctx.probe("sync_handler_op")
+                    ctx.log("auto_drain_sync", t=loop.time())
+                    post_drain(1)
+            else:
+                sim.after(d, go)
         ev.add_handler("ball_started", auto_drain, priority=-20000)
 
     # -- timed chain -------------------------------------------------------------------------------
